@@ -230,11 +230,14 @@ func main() {
 		}
 		// the real Run loop (first: later streams leave goroutines of the real controller's failed creations behind)
 		c.SetExtra("goroutines_before_run_loop_cases", runtime.NumGoroutine())
-		k := c.Budget(10, 80)
+		k := c.Budget(15, 120)
 		for i := 0; i < k && keepGoing(); i++ {
 			cs, labels := genRun(c.Rng, i%2 == 0)
-			c.Case(sig(cs), true, fmt.Sprintf("run versions=%d hold=%v", len(cs.Run.Versions), cs.Run.Hold >= 0), func() interface{} {
-				return map[string]interface{}{"mode": "run", "versions": len(cs.Run.Versions), "hold": cs.Run.Hold}
+			if i%3 == 2 {
+				cs, labels = genCure(c.Rng)
+			}
+			c.Case(sig(cs), true, fmt.Sprintf("run versions=%d hold=%v cure=%v", len(cs.Run.Versions), cs.Run.Hold >= 0, cs.Run.Cure != nil), func() interface{} {
+				return map[string]interface{}{"mode": "run", "versions": len(cs.Run.Versions), "hold": cs.Run.Hold, "cure": cs.Run.Cure != nil}
 			})
 			histBuckets(c, labels)
 			c.Trace()
